@@ -2,7 +2,7 @@
 (* Trace specification for Input / InputExp (C17).  hdr = the configuration record;     *)
 (* lines: construct(refused), start(out), put(v, x, ret, out), put_raise(v, x, out, exc). *)
 EXTENDS TraceLib
-K == 6
+K == 8
 VARIABLES cfg, phase, out, ret, tid, l
 I == INSTANCE Input
 vars == <<cfg, phase, out, ret>>
